@@ -320,7 +320,11 @@ impl<B> Call<WithBody, B> {
                     return Err(Error::BodyLargerThanContentLength);
                 }
             }
-            input_used = self.state.writer.write(input, &mut w);
+            // Once ended, there is nothing more to write. A repeated empty
+            // write must not produce another chunked terminator.
+            if !self.state.writer.is_ended() {
+                input_used = self.state.writer.write(input, &mut w);
+            }
         }
 
         let output_used = w.len();
